@@ -280,13 +280,16 @@ func (m *StorageMiddleware) DeleteObject(ctx context.Context, bucket storage.Buc
 		if err != nil {
 			return nil, err
 		}
+		// IsDeleteMarker is also set when the deleted version itself was a delete
+		// marker; a marker is only *created* by a delete without a version id.
+		createdDeleteMarker := result != nil && result.IsDeleteMarker && (opts == nil || opts.VersionID == nil)
 		eventName := EventObjectRemovedDelete
-		if result != nil && result.IsDeleteMarker {
+		if createdDeleteMarker {
 			eventName = EventObjectRemovedDeleteMarkerCreated
 		}
 		if overrideEventName, ok := storage.NotificationEventOverride(ctx); ok {
 			eventName = overrideEventName
-			if overrideEventName == EventLifecycleExpirationDelete && result != nil && result.IsDeleteMarker {
+			if overrideEventName == EventLifecycleExpirationDelete && createdDeleteMarker {
 				eventName = EventLifecycleExpirationDeleteMarker
 			}
 		}
